@@ -16,7 +16,7 @@ RULE = ('history: generated spec A, then 1-4 edits from the evolution guide\'s c
         'lenient) equals the A-view projection of v; strict decoding under A raises iff the message differs '
         'from the encoding of the projection (contains something A does not know); decode_B(encode_A(w)) '
         'equals w with new fields unset (skipping values through a tag B changed from Void to a '
-        'non-nullable type). non-trivial = value exercises >=1 edit; distinct by (edit kinds, value).')
+        'non-nullable type). non-trivial = value exercises >=1 edit; distinct by (edit kinds, value). Every new defaulted field is also read on the new peer (declared default, ready union instance for a tag default); edits include union-typed fields with tag defaults and prefer the deepest unions of a chain.')
 ASSUMPTIONS = ['Docs are left out of the specs (renames would have to rewrite doc references).',
                'The documented null / empty-struct ambiguity of nullable struct-valued members is normalised.']
 
